@@ -18,17 +18,23 @@
 
    IDEAL write order of a (re-)pin: write the new pin completely, then remove the pins it
    replaces.  Deviation Dev_C23_RepinDeleteFirst (open finding): the code removes the old pins
-   completely first and only then writes the new one. *)
+   completely first and only then writes the new one.
+   IDEAL recovery: the dirty flag is cleared after the last repair.  Deviation
+   Dev_C23_RebuildCleansEarly (open finding): rebuildIndexes calls flushPins after every
+   SyncEvery (50) checked records, which clears the flag although later records are still
+   unrepaired (and never sets it again). *)
 EXTENDS Naturals, Sequences, FiniteSets, TLC, Json
 
 CONSTANTS NC,         \* cids 1..NC
           Names,      \* pin names, "" = unnamed (no name index entry)
           Devs,       \* enabled as-built deviations
           MaxOps,     \* calls per history
-          MaxCrashes  \* crashes per history
+          MaxCrashes, \* crashes per history
+          SyncEvery   \* rebuildIndexes flushes after every SyncEvery checked records (50 in the code)
 
 Cids == 1..NC
 RepinDev == "Dev_C23_RepinDeleteFirst"
+EarlyDev == "Dev_C23_RebuildCleansEarly"
 
 VARIABLES recs, ixR, ixD, ixN, flag,        \* persistent
           memDirty, prog, phase,            \* volatile: phase \in {"idle","op","down","recover"}
@@ -36,9 +42,10 @@ VARIABLES recs, ixR, ixD, ixN, flag,        \* persistent
           keep,                             \* cids pinned before the running call that the call does not unpin
           excused,                          \* cids a deviation (used in this history) may lose
           cur,                              \* the running / last call and its result
-          dev                               \* deviations used so far
+          dev,                              \* deviations used so far (all histories)
+          rundev                            \* deviations used in this history
 disk == <<recs, ixR, ixD, ixN, flag>>
-vars == <<recs, ixR, ixD, ixN, flag, memDirty, prog, phase, nextId, nops, ncrash, keep, excused, cur, dev>>
+vars == <<recs, ixR, ixD, ixN, flag, memDirty, prog, phase, nextId, nops, ncrash, keep, excused, cur, dev, rundev>>
 
 (* ---- writes ---------------------------------------------------------------------------- *)
 W(k, id, c, mode, name) == [k |-> k, id |-> id, c |-> c, mode |-> mode, name |-> name]
@@ -100,6 +107,7 @@ Start(o, body, res, unpins, usedDev) ==
   /\ cur' = [o |-> o, res |-> res]
   /\ excused' = IF usedDev THEN excused \cup {o.c} ELSE excused
   /\ dev' = IF usedDev THEN dev \cup {RepinDev} ELSE dev
+  /\ rundev' = IF usedDev THEN rundev \cup {RepinDev} ELSE rundev
   /\ UNCHANGED <<disk, ncrash, nextId>>
 
 \* Pin(c, recursive, name) / PinWithMode(c, Recursive, name), fetch successful: replaces every pin of c
@@ -153,30 +161,38 @@ Write == /\ phase \in {"op", "recover"} /\ prog # <<>>
          /\ phase' = IF Len(prog) = 1 THEN "idle" ELSE phase
          /\ memDirty' = IF Head(prog).k = "SetClean" THEN FALSE ELSE memDirty
          /\ nextId' = IF Head(prog).k = "PutRecord" THEN nextId + 1 ELSE nextId   \* pin ids are never reused
-         /\ UNCHANGED <<nops, ncrash, keep, excused, cur, dev>>
+         /\ UNCHANGED <<nops, ncrash, keep, excused, cur, dev, rundev>>
 
 \* the process stops: everything volatile is lost, the datastore keeps exactly the writes issued so far
 Crash == /\ phase \in {"idle", "op", "recover"} /\ ncrash < MaxCrashes
          /\ phase' = "down" /\ prog' = <<>> /\ memDirty' = FALSE /\ ncrash' = ncrash + 1
          /\ keep' = IF phase = "idle" THEN PinnedSet ELSE keep      \* an idle crash must lose nothing
-         /\ UNCHANGED <<disk, nextId, nops, excused, cur, dev>>
+         /\ UNCHANGED <<disk, nextId, nops, excused, cur, dev, rundev>>
 
 \* New(): rebuildIndexes when the dirty flag is set
 Ok(p)      == <<p.c, p.id>> \in Ix(p.mode)
 Repairs(p) == (IF Ok(p) THEN <<>> ELSE <<W("AddCidIndex", p.id, p.c, p.mode, "")>>)
               \o (IF p.name # "" /\ <<p.name, p.id>> \notin ixN THEN <<W("AddNameIndex", p.id, 0, "", p.name)>> ELSE <<>>)
+RepairAll(ord) == Flat([i \in 1..Len(ord) |-> Repairs(ord[i])])
 Reopen == /\ phase = "down"
           /\ IF flag # "1"
-             THEN phase' = "idle" /\ prog' = <<>> /\ memDirty' = FALSE
+             THEN phase' = "idle" /\ prog' = <<>> /\ memDirty' = FALSE /\ UNCHANGED <<dev, rundev>>
              ELSE \E ord \in SeqsOf({p \in recs : Repairs(p) # <<>>}) :       \* query order of the records
-                    /\ prog' = Flat([i \in 1..Len(ord) |-> Repairs(ord[i])]) \o <<SetCleanW>>
                     /\ phase' = "recover" /\ memDirty' = TRUE
-          /\ UNCHANGED <<disk, nextId, nops, ncrash, keep, excused, cur, dev>>
+                    /\ \/ prog' = RepairAll(ord) \o <<SetCleanW>> /\ UNCHANGED <<dev, rundev>>
+                       \* as built: the first j damaged records are among the first SyncEvery records of the
+                       \* query, the flag is cleared there, the others are repaired afterwards, no final write
+                       \/ /\ EarlyDev \in Devs /\ Cardinality(recs) > SyncEvery
+                          /\ \E j \in 0..(Len(ord) - 1) :
+                               /\ j <= SyncEvery /\ Len(ord) - j <= Cardinality(recs) - SyncEvery
+                               /\ prog' = RepairAll(SubSeq(ord, 1, j)) \o <<SetCleanW>> \o RepairAll(SubSeq(ord, j + 1, Len(ord)))
+                          /\ dev' = dev \cup {EarlyDev} /\ rundev' = rundev \cup {EarlyDev}
+          /\ UNCHANGED <<disk, nextId, nops, ncrash, keep, excused, cur>>
 
 Init == /\ recs = {} /\ ixR = {} /\ ixD = {} /\ ixN = {} /\ flag = "none"
         /\ memDirty = FALSE /\ prog = <<>> /\ phase = "idle"
         /\ nextId = 1 /\ nops = 0 /\ ncrash = 0 /\ keep = {} /\ excused = {}
-        /\ cur = [o |-> Call("none", 0, 0, FALSE, ""), res |-> "ok"] /\ dev = {}
+        /\ cur = [o |-> Call("none", 0, 0, FALSE, ""), res |-> "ok"] /\ dev = {} /\ rundev = {}
 Next == Begin \/ Write \/ Crash \/ Reopen
 Spec == Init /\ [][Next]_vars
 
@@ -200,4 +216,7 @@ NoDanglingIndex == /\ \A e \in ixR \cup ixD : \E p \in recs : p.id = e[2]
 \* every CID pinned before the (interrupted) call that the call does not unpin is still pinned
 PinnedPreserved       == phase = "idle" => keep \subseteq PinnedSet
 PinnedPreservedModDev == phase = "idle" => (keep \ PinnedSet) \subseteq excused
+\* what Dev_C23_RebuildCleansEarly breaks once it has been used in a history
+IndexesAgreeModDev    == IndexesAgree \/ EarlyDev \in rundev
+DirtyCoversModDev     == DirtyCovers \/ EarlyDev \in rundev
 =============================================================================
